@@ -265,14 +265,24 @@ func (c *Ctx) checkTokenAuth() {
 		r.Check(ok && cnt[0] > 0, "C12.1-token-gates", base+" / serial number", c.pos(ret), "", "a token issued under another serial number is accepted")
 		// e. expiry: time.Time.Before on a time derived from tl.Expires must be false
 		gExp := core.Guard{Name: "!expires.Before(now+1s)", Match: func(a core.CondAtom) (bool, bool) {
-			if a.Op != token.ILLEGAL || calleeFullName(a.Val) != "(time.Time).Before" {
+			if a.Op != token.ILLEGAL {
 				return false, false
 			}
-			recv := core.Strip(a.Val).(*ssa.Call).Call.Args[0]
-			if !derivesThroughCalls(recv, core.IsFieldLoad(expiresTok), 0) {
+			name := calleeFullName(a.Val)
+			if name != "(time.Time).Before" && name != "(time.Time).After" {
 				return false, false
 			}
-			return true, false
+			args := core.Strip(a.Val).(*ssa.Call).Call.Args
+			isExp := func(v ssa.Value) bool { return derivesThroughCalls(v, core.IsFieldLoad(expiresTok), 0) }
+			switch {
+			case isExp(args[0]) && !isExp(args[1]):
+				// expires.Before(now+1s) must be false; expires.After(now+1s) must be true
+				return true, name == "(time.Time).After"
+			case isExp(args[1]) && !isExp(args[0]):
+				// (now+1s).After(expires) must be false; (now+1s).Before(expires) must be true
+				return true, name == "(time.Time).Before"
+			}
+			return false, false
 		}}
 		ok, cnt = core.GuardedBy(fn, ret, gExp)
 		r.Check(ok && cnt[0] > 0, "C12.1-token-gates", base+" / not expired", c.pos(ret), "", "an expired token is accepted (the expiry is not compared as a time, e.g. unsigned arithmetic wraps)")
